@@ -69,7 +69,7 @@ pub fn cfg() -> Cfg {
         Resp::DefaultImpl,
         Resp::Panics,
     ];
-    cfg.matchers = vec![MatcherKind::FuncDebug, MatcherKind::FuncDebug, MatcherKind::Func];
+    cfg.matchers = vec![MatcherKind::FuncDebug, MatcherKind::FuncDebug, MatcherKind::Func, MatcherKind::Macro(0)];
     cfg.max_clauses = 8;
     cfg.max_stub_pats = 3;
     cfg.max_chain = 3;
@@ -77,6 +77,7 @@ pub fn cfg() -> Cfg {
     cfg.guide = 150;
     cfg.prefer_match = 80;
     cfg.stop_at_deviation = false;
+    cfg.verify_modes = vec![VerifyMode::Drop, VerifyMode::Verify, VerifyMode::ExplicitVerify, VerifyMode::Report];
     cfg
 }
 
@@ -275,7 +276,7 @@ pub const RULE: &str = "permute = C01-C04-style scenario x random clause permuta
 pub fn run(ctx: &Ctx) -> Verdict {
     let mut v = Verdict::new("exploration", RULE);
     v.explanation = "Relation between two real runs: per-call outcomes (value or panic class) and the verification message as a sorted multiset of lines must be identical.".into();
-    v.assumptions = vec!["DynClause hook assembles the clause list".into()];
+    v.assumptions = vec!["each clause is wrapped in the DynClause hook (its builder type is only known at run time); the clause list itself is a production tuple of that arity".into()];
     v.subs.push(super::replay_corpus(ctx));
     let n = ctx.tier.pick(60_000, 1_500_000);
     let perm = (gen::scenario(cfg()), vec(any::<u8>(), 10)).prop_map(|(base, keys)| PermCase { base, keys });
